@@ -35,7 +35,7 @@ def plan(tier, seed):
     quick = tier == "quick"
     return {
         "nshards": 16,
-        "params": {"soft_s": 1500 if quick else 5400, "nprograms": 12 if quick else 140, "script_len": 10 if quick else 20},
+        "params": {"soft_s": 1500 if quick else 5400, "nprograms": 12 if quick else 48, "script_len": 10 if quick else 14},
         "hard_timeout_s": 2700 if quick else 9000,
     }
 
